@@ -80,7 +80,16 @@ def judge(rec, opts):
             if L < 1:
                 continue
             band("loop", m["iters"], m["prod"], L, run_with(rec, {"loop": L}), eout, "LoopIterationLimitError", out, rec)
-    # namespace: a huge limit changes nothing; after a success the score is within the limit
+    # namespace: the values the local namespaces held at their (approximate) peak, weighed as the
+    # library weighs them; one below that score the render must fail with the namespace error
+    import sys as _sys
+    vals = [replay.to_py(v) for v in m.get("nsvals", [])]
+    if vals:
+        score = sum(_sys.getsizeof(v, 1) for v in vals)
+        got = run_with(rec, {"ns": score - 1})
+        if got["ok"] or "LocalNamespaceLimitError" not in got.get("mro", []):
+            out.append((f"namespace:limit-exceeded-without-error:{constructs(rec)}", {"limit": score - 1, "values": repr(vals), "got": got}))
+    # a huge limit changes nothing; after a success the score is within the limit
     got = run_with(rec, {"ns": HUGE})
     if not (got["ok"] and got["out"] == eout):
         out.append((f"namespace:limit-changes-output:{constructs(rec)}", {"got": got}))
@@ -134,7 +143,7 @@ def check(tier: str) -> int:
         finally:
             r.cleanup()
     # (ii) programs
-    plans = [("output", 2, 3), ("loops", 2, 3), ("cycles", 2, 2)]
+    plans = [("output", 2, 3), ("loops", 2, 3), ("cycles", 2, 2), ("namespace", 3, 4)]
     for variant, q, t in plans:
         r = gen.run_focus(chk, "MC_Limits", f"limits-{variant}", max_top=t if tier == "thorough" else q,
                           extra_constants={"Variant": f'"{variant}"'}, invariants=("MeasuresConsistent",), export="ExportMeasures", timeout=6000)
